@@ -499,6 +499,23 @@ fn main() {
         cx.flush();
     }
 
+    // 1d. boundary delimiter lengths of raw strings: the start scanner accepts up to 255 hashes;
+    // complete, unterminated and partially terminated strings around every 8-bit boundary
+    {
+        for hashes in [0usize, 1, 2, 126, 127, 128, 129, 253, 254, 255, 256, 257, 300, 511, 512] {
+            let h = "#".repeat(hashes);
+            for q in ["'", "\""] {
+                cx.push(format!("r{h}{q}hi{q}{h} x"));
+                cx.push(format!("r{h}{q}hi{q}{h}"));
+                cx.push(format!("r{h}{q}hi"));
+                cx.push(format!("r{h}{q}a{q}{}b{q}{h} é", "#".repeat(hashes.saturating_sub(1))));
+                cx.push(format!("r{h}{q}é\n字{q}{h}\n  y"));
+                cx.push(format!("x = r{h}{q}{q}{h}"));
+            }
+        }
+        cx.flush();
+    }
+
     // 2. repository sources (whole files and every line-prefix cut)
     let mut files = vec![];
     corpus_files(std::path::Path::new("/repo"), &mut files);
